@@ -593,6 +593,9 @@ class Item:
         if finding is not None and finding.get("exc") is not None and real is not None and \
                 not (real[0] == "exc" and real[1] in finding["exc"]):
             finding = None      # a different failure inside a known region is a new violation
+        if finding is not None and finding.get("real_is_none") and real is not None and \
+                not (real[0] == "ret" and real[1] is None):
+            finding = None
         if finding is not None:
             self.known_hits.setdefault(finding["id"], {"what": finding["what"], "example": jsonable(inputs),
                                                        "detail": detail})
